@@ -258,6 +258,7 @@ def shrink(ctx, it, params):
 def describe(ctx, cov, items, plans, results):
     cov['rule'] = ('one evaluation = one run of the real abipkgdiff main() on a seeded package pair under one seeded schedule (policy, worker count 1-16 via sysconf, spurious '
                    'wake-ups, starvation window); its stdout and exit status are compared with the --no-parallel run of the same pair, and ThreadSanitizer watches the run; '
+                   'torn-archive runs hand both the parallel and the --no-parallel run the same fragment of one archive (error paths of the extraction queues); '
                    'distinct = distinct (package pair, FNV hash of the (thread, operation) sequence)')
     cov['workloads'] = {n: {'files': len(it['wl']['files']), 'format': it['wl']['format'], 'abignore': it['wl']['abignore'], 'options': it['wl']['options'],
                             'reference_exit': it['ref'].exit, 'reference_report_bytes': len(it['ref'].stdout or b'')} for n, it in items.items()}
@@ -265,7 +266,10 @@ def describe(ctx, cov, items, plans, results):
                      'runs_with_lock_contention': sum(1 for r in results if r.info.get('lock_contended')),
                      'worker_counts_used': sorted(set(r.info.get('workers') for r in results)),
                      'workloads_with_both_abignore': sum(1 for it in items.values() if it['wl']['abignore'] == 'both'),
-                     'archive_workloads': sum(1 for it in items.values() if it['wl']['format'] != 'dir')}
+                     'archive_workloads': sum(1 for it in items.values() if it['wl']['format'] != 'dir'),
+                     'workloads_with_split_debug_info_packages': sum(1 for it in items.values() if it['wl'].get('splitdbg')),
+                     'debian_package_workloads': sum(1 for it in items.values() if it['wl']['format'] == 'deb'),
+                     'torn_archive_runs': sum(1 for p in plans if p['params'].get('torn'))}
     cov['real_vs_stub'] = {'real': ['tools/abipkgdiff.cc main() with its three nested worker queues, src/abg-workers.cc, the DWARF reader and comparison engine, compiled from the working tree with -fsanitize=thread',
                                     'tar (archive workloads) through the real system()', 'real pthreads, one running at a time'],
                            'stub': ['blocking semantics of pthread mutex/condvar/join (SIM-T model)', 'sysconf(_SC_NPROCESSORS_ONLN)', 'mkdtemp suffix']}
